@@ -348,8 +348,21 @@ def check(world) -> Dict[str, Any]:
         k = world["k"]
         ranks = {0: corpus_trace(k, 0), 1: corpus_trace(k, 1)}
         evl = list(ranks.values())
-        base = load_with(ranks, None, None, then=bundle_mod.bundle)
-        execs = 1
+        def thrice(ta):
+            b1 = bundle_mod.bundle(ta)
+            b2 = bundle_mod.bundle(ta)                      # the same getters again on the same object
+            ta.t.decode_symbol_ids(use_shorten_name=False)  # a legitimate session call that adds decoded columns
+            b3 = bundle_mod.bundle(ta)
+            return b1, b2, b3
+
+        base, again, after_decode = load_with(ranks, None, None, then=thrice)
+        execs = 3
+        if world.get("part", 0) == 0:
+            for tagx, other in (("repeated-call", again), ("after-decode_symbol_ids", after_decode)):
+                if other != base:
+                    diff = sorted(kk for kk in base if other.get(kk) != base[kk])
+                    viol.append((f"bundle/result-depends-on-{tagx}/{'+'.join(diff)}", dict(k=k, base={x: base[x] for x in diff[:1]},
+                                                                                           got={x: other.get(x) for x in diff[:1]})))
         n0, n1 = len(vocab(evl[0])), len(vocab(evl[1]))
 
         def variants(n):
